@@ -150,7 +150,7 @@ fn main() {
         "nodes" => {
             let w = World::new(seed, 3, 3);
             let mut rng = Rng::new(seed);
-            nodes::run(&w, seed, &mut rng, args.num("n", 10) as usize, &mut trace, &mut sum);
+            nodes::run(&w, seed, &mut rng, args.num("n", 10) as usize, args.num("garbage", 0), &mut trace, &mut sum);
         }
         "protect" => {
             let w = World::new(seed, 3, 3);
